@@ -19,7 +19,8 @@ RULE = ("requests `tof64|tof32 D<c>:<s>` -> bit pattern; oracle: exact round-hal
         "#13/#14; plus `probe --sweep-tof`: millions of pseudo-random and structured Decimals per run compared in-process "
         "with what Rust std's correctly rounded parser makes of the decimal text (a second, independent oracle; its structured classes enumerate every guard/round/sticky pattern below random 24- and "
         "53-bit significands); `probe --sweep-tof32-small`: every coefficient of a window x every scale x both signs "
-        "against an exact integer reference. Non-trivial = within 2 decimal ulps of a float midpoint or a power of two")
+        "against an exact integer reference; `probe --sweep-tof32-hard`: a scan of all 8*10^10 pairs (c < 2^32, n <= 18) "
+        "for values extremely close to an f32 midpoint, every candidate checked exactly. Non-trivial = within 2 decimal ulps of a float midpoint or a power of two")
 BUILDS = {"quick": [("dev", ()), ("release", ())],
           "thorough": [("dev", ()), ("release", ()), ("release", ("packed",)), ("o0-nochk", ())]}
 MODE_INDEPENDENT = True      # half of every batch runs under a non-default thread rounding mode
@@ -150,6 +151,11 @@ def main(tier, seed):
         tot["examples"] += r["examples"][:5]
         tot["wall_s"] += r["wall_s"]
     code = E.fold_sweep(ID, code, ev, "f32_small_coefficient_sweep", tot, tier, seed, rl)
+    # hard cases: scan ALL (c, n), c < 2^32, n <= 18, for values within 2^-27 ulp-fractions of the midpoint of two
+    # adjacent f32 values (incremental fixed-point arithmetic, no library call), then check every such candidate
+    # and its neighbours exactly - the inputs on which a conversion that rounds twice goes wrong
+    hw = E.run_sweep(binary, ["--sweep-tof32-hard", E.NCPU, 27], timeout=3000)
+    code = E.fold_sweep(ID, code, ev, "f32_near_midpoint_hard_cases", hw, tier, seed, rl)
     if tot.get("ran"):
         ev["coverage"]["exhaustive_subdomains"] = ["f32::from(Decimal(c, n)) for every c in %s, every n in 0..=18, both signs" % tot["windows"]]
     E.write_evidence(ID, ev)
